@@ -354,6 +354,13 @@ def raise_classes(chk, P):
                 why = ALLOWED_RAISES.get((fi.module.name, fi.qualname, name))
                 ok = why is not None
             is_class = isinstance(r, (ClassInfo, ExternalClass)) or type(r).__name__ == "External"
+            if not ok and isinstance(target, ast.Name) and target.id in [a.arg for a in fi.node.args.args + fi.node.args.kwonlyargs]:
+                # raise <parameter>(...): the class is chosen by the callers - every call site in the package must pass a
+                # ConfigurationException subclass in that parameter
+                classes = _param_classes(P, fi, target.id)
+                if classes is not None:
+                    ok = bool(classes) and all(c.is_subclass_of(cfg) for c in classes)
+                    is_class = True
             if not ok and isinstance(exc, ast.Call) and not is_class:
                 # raise helper(...): the helper is an exception factory when every value it returns is a
                 # ConfigurationException
@@ -376,6 +383,43 @@ def raise_classes(chk, P):
             chk.ob("C16.E8", "exception class %s derives from ConfigurationException" % ci.name, ok, site="%s:%d %s" % (ci.module.relpath, ci.node.lineno, ci.name),
                    found=[getattr(c, "name", "?") for c in ci.mro()], expect="ConfigurationException in its bases", key="C16.E8|class|%s" % ci.name)
     return n
+
+
+def _param_classes(P, fi, pname):
+    """classes passed for parameter pname at every call of fi in the package, or None when a call site cannot be resolved"""
+    params = [a.arg for a in fi.node.args.args]
+    off = 1 if fi.cls is not None and params and params[0] in ("self", "cls") else 0
+    idx = params.index(pname) - off if pname in params else None
+    out = []
+    ncalls = 0
+    for m in P.modules.values():
+        if not m.name.startswith("atsim"):
+            continue
+        for n in ast.walk(m.tree):
+            if not isinstance(n, ast.Call):
+                continue
+            f = n.func
+            nm = f.attr if isinstance(f, ast.Attribute) else (f.id if isinstance(f, ast.Name) else None)
+            if nm != fi.name:
+                continue
+            ncalls += 1
+            arg = None
+            if idx is not None and 0 <= idx < len(n.args):
+                arg = n.args[idx]
+            else:
+                arg = next((k.value for k in n.keywords if k.arg == pname), None)
+            if arg is None:
+                # default value of the parameter
+                defaults = fi.node.args.defaults
+                di = params.index(pname) - (len(params) - len(defaults)) if pname in params else -1
+                arg = defaults[di] if 0 <= di < len(defaults) else None
+            if arg is None:
+                return None
+            r = P.resolve_expr(m, arg)
+            if not isinstance(r, ClassInfo):
+                return None
+            out.append(r)
+    return out if ncalls else None
 
 
 def _eval_raise(P, fi, node, cfg):
@@ -823,6 +867,26 @@ def nested_call_arity(chk, P):
                found=got if got != "other-exception" else o, expect=want, key="C16.E14|callback|%d" % nargs)
 
 
+def _callee_always_raises(P, fi, func, depth):
+    from ..symeval_stmt import always_raises
+    if depth == 0:
+        return False
+    callee = None
+    if isinstance(func, ast.Attribute) and isinstance(func.value, ast.Name) and func.value.id in ("self", "cls") and fi.cls is not None:
+        callee = fi.cls.lookup(func.attr)
+    else:
+        r = P.resolve_expr(fi.module, func)
+        if isinstance(r, FuncInfo):
+            callee = r
+    if not isinstance(callee, FuncInfo):
+        return False
+    body = [st for st in callee.node.body if not (isinstance(st, ast.Expr) and isinstance(st.value, ast.Constant))]
+    if always_raises(body):
+        return True
+    last = body[-1] if body else None
+    return isinstance(last, ast.Expr) and isinstance(last.value, ast.Call) and _callee_always_raises(P, callee, last.value.func, depth - 1)
+
+
 def _enclosing_try(fnode, handler):
     for n in ast.walk(fnode):
         if isinstance(n, ast.Try) and handler in n.handlers:
@@ -866,6 +930,8 @@ def no_swallowing(chk, P):
                 elif isinstance(last, ast.Expr) and isinstance(last.value, ast.Call) and isinstance(last.value.func, ast.Attribute) \
                         and last.value.func.attr in ("error", "exit"):
                     ok = True         # ArgumentParser.error / sys.exit end the program
+                elif isinstance(last, ast.Expr) and isinstance(last.value, ast.Call) and _callee_always_raises(P, fi, last.value.func, 3):
+                    ok = True         # a helper of the package that always raises
                 else:
                     # fallback value: the handler binds a name that the guarded block was binding
                     tr = _enclosing_try(fi.node, node)
